@@ -121,8 +121,12 @@ impl TableChecker {
                         let newcomers = cur.iter().find(|(ck, _)| ck == k).map(|(_, cn)| cn.iter().filter(|c| !prev_ids.contains(&c.0)).count()).unwrap_or(0);
                         if ns.len() == 20 && gone.len() == 1 && newcomers == 1 {
                             self.stale_replacements += 1;
-                            if *idx != 0 {
-                                self.fail("replaced-entry-not-least-recently-seen", format!("{name}: a full bucket {k} replaced its entry at position {idx}, not its least recently seen one"));
+                            let oldest = ns.iter().map(|x| x.2).max().unwrap_or(0);
+                            if *idx != 0 || n.2 < oldest {
+                                self.fail(
+                                    "replaced-entry-not-least-recently-seen",
+                                    format!("{name}: a full bucket {k} replaced its entry at position {idx} (last seen {:.1} min ago) although its least recently seen entry was last seen {:.1} min ago", n.2 as f64 / (60.0 * SEC as f64), oldest as f64 / (60.0 * SEC as f64)),
+                                );
                             }
                         } else {
                             self.stale_removals += 1;
